@@ -10,7 +10,9 @@ mkdir -p "$(dirname "$wt")"
 git -C /repo worktree add -q --detach "$wt" HEAD || exit 2
 cp /repo/src/easynetwork/version.py "$wt/src/easynetwork/version.py"
 head=$(git -C /repo rev-parse --short HEAD)
-if (cd "$wt" && git apply "$d/patch.diff") 2>/dev/null; then
+patch="$d/patch.diff"
+[ -f "$d/patch_head.diff" ] && patch="$d/patch_head.diff"      # the same edit re-created on /repo HEAD after later fix: commits
+if (cd "$wt" && git apply "$patch") 2>/dev/null; then
   res=$(cd /verif && VERIF_REPO="$wt" timeout 3000 /venv/bin/python tools/baseline_check.py 2>&1 | grep -E "^stable_pass|^MISSING" | head -5 | tr '\n' ' ')
   echo "$head: $res" > "$d/baseline.txt"
 else
